@@ -62,6 +62,7 @@ func (s *defaultSender) updateWindow(add uint32) {
 		return
 	}
 	prevWindow := s.currentWindow.Add(add) - add
+	verifYield("uw.added", 0)
 	if prevWindow == 0 {
 		select {
 		case s.windowUpdates <- struct{}{}:
@@ -81,14 +82,17 @@ func (s *defaultSender) send(data []byte) error {
 	first := true
 	for {
 		windowSz := s.currentWindow.Load()
+		verifYield("send.loaded", 0)
 
 		if windowSz == 0 {
 			// must wait for window size update before we can send more
+			verifYield("send.park", 0)
 			select {
 			case <-s.windowUpdates:
 			case <-s.ctx.Done():
 				return s.ctx.Err()
 			}
+			verifYield("send.woke", 0)
 			continue
 		}
 
@@ -99,10 +103,12 @@ func (s *defaultSender) send(data []byte) error {
 		if chunkSz > chunkMax {
 			chunkSz = chunkMax
 		}
+		verifYield("send.cas", 0)
 		if !s.currentWindow.CompareAndSwap(windowSz, windowSz-chunkSz) {
 			continue
 		}
 
+		verifYield("send.reserved", 0)
 		last := chunkSz == uint32(len(data))
 		if err := s.sendFunc(data[:chunkSz], size, first); err != nil {
 			return err
